@@ -51,3 +51,11 @@ Theorem C19_log_records_in_order : forall (E : env (ws Z) Q (list Q)) (P : acpol
   map (fun r => fst (fst r)) (learn_records E P gamma alpha N T iters k) = map (fun j => Z.of_nat (j * N * T)) (seq 1 iters).
 Proof. exact learn_records_steps. Qed.
 Print Assumptions C19_log_records_in_order.
+
+(* any learner, warm-up steps included: the j-th record carries N * (learning_starts + j * num_steps) environment steps *)
+Theorem C19_records_count_warmup : forall alpha T L iters (hist : list (list (Q * bool))),
+  Forall (fun h => (L + iters * T <= length h)%nat) hist ->
+  map (fun r => fst (fst r)) (hist_records alpha T L iters hist) =
+  map (fun j => Z.of_nat (length hist * (L + j * T))) (seq 1 iters).
+Proof. exact hist_records_steps. Qed.
+Print Assumptions C19_records_count_warmup.
